@@ -54,7 +54,7 @@ class _Pool:
         inputs = list(inputs)
         n = len(inputs)
         perms = list(it.permutations(range(n)))
-        order = perms[self.owner.ctx.choose(len(perms), "pool execution order")]
+        order = perms[self.owner.ctx.choose(len(perms), "pool execution order")] if self.owner.explore else perms[0]
         self.owner.orders.append(order)
         results = [None] * n
         for i in order:
@@ -83,6 +83,7 @@ class PebbleStub:
     def __init__(self, ctx):
         self.ctx = ctx
         self.orders = []
+        self.explore = True  # False: tasks run in input order (no scheduling choice)
 
     def as_completed(self, futures, timeout=None):
         """concurrent.futures.as_completed: completion order is arbitrary -> solver-chosen."""
